@@ -104,7 +104,7 @@ def check(run, replay=None):
                 "second fault, a KeyboardInterrupt or a reset; non-trivial = the fault hit after at least one accepted step or inside "
                 "event handling / a callback / a retry; distinct by (scenario, k)")
     if replay and isinstance(replay.get("scenario"), dict) and "modelreplay" in replay["scenario"]:
-        modelreplay.phase(run, [], "C12", ('Rows', 'Pieces', 'Events', 'Status', 'Raised', 'FailureCause', 'Dt', 'CallbackCount', 'RunTerminates'), replay=replay["scenario"]["modelreplay"])
+        modelreplay.phase(run, [], "C12", ('Rows', 'Pieces', 'Events', 'Status', 'Raised', 'FailureCause', 'Dt', 'CallbackCount', 'RunTerminates', 'RequestedStep', 'IntegratorCalls'), replay=replay["scenario"]["modelreplay"])
         return
     if replay:
         sc = replay.get("scenario")
@@ -170,7 +170,7 @@ def check(run, replay=None):
                           replay={"twin": [a, b]})
     if not replay:
         # spec -> code: behaviours of the design model with a Fault step (right-hand side, event function or callback raises at a loop position TLC chose) replayed on the real code, resumed, reset
-        modelreplay.phase(run, ['OdeSystemSim_fixed'], "C12", ('Rows', 'Pieces', 'Events', 'Status', 'Raised', 'FailureCause', 'Dt', 'CallbackCount', 'RunTerminates'), keep=modelreplay.has_fault)
+        modelreplay.phase(run, ['OdeSystemSim_fixed', 'OdeSystemSim_adaptive'], "C12", ('Rows', 'Pieces', 'Events', 'Status', 'Raised', 'FailureCause', 'Dt', 'CallbackCount', 'RunTerminates', 'RequestedStep', 'IntegratorCalls'), keep=modelreplay.has_fault)
     run.assumptions += ["faults are injected through the wrapped user callables only (right-hand side, event functions, callbacks); "
                         "failures inside library internals (allocation, linear algebra) are not enumerated",
                         "the resumed result is required bit for bit only for fixed-step explicit/splitting runs without events or callbacks; elsewhere "
